@@ -550,6 +550,17 @@ pub fn run_monitor_case(case: &TxCase, stats: &mut Stats, focus: &str) -> Vec<Vi
             }
         }
 
+        // ================= C13 at transaction level: the final refund is capped
+        if focus == "C13" {
+            let spent = gas_used + refunded;
+            let q = if london { 5 } else { 2 };
+            if refunded > spent / q {
+                out.push(Violation::new("C13", "C13.final-refund-cap", &[("quotient", q.to_string())], format!("tx {i}: final refund {refunded} exceeds spent {spent} / {q}")));
+            }
+            if gas_used > tx.gas_limit {
+                out.push(Violation::new("C13", "C13.final-refund-cap", &[("quotient", "limit".into())], format!("tx {i}: gas used {gas_used} exceeds the limit {}", tx.gas_limit)));
+            }
+        }
         // ================= C09 gas rules
         if matches!(focus, "C09" | "C08" | "C25") {
             let intrinsic = intrinsic_gas(spec, tx);
